@@ -15,6 +15,9 @@ Inductive case :=
 | CFpv (atol : Q) (p1 p2 v : vec3 Q) (o : result oplane)
 (* fit_from_points: the points, what np.linalg.eigh returned for np.cov(points.T) (data), the resulting plane *)
 | CFit (ps : list (vec3 Q)) (e : eig3 Q) (o : result oplane)
+(* fit_from_points on a cloud whose covariance has tied eigenvalues: the eigenbasis, hence the plane, is not unique.
+   lam = smallest eigenvalue eigh reported (data).  Checked: what every correct answer has in common. *)
+| CFitTie (ps : list (vec3 Q)) (lam : Q) (o : result oplane)
 (* tilted: cosine and sine of the signed angle as math.cos / math.sin returned them (data);
    full = also compare them with the model's own trigonometry (slow) *)
 | CTilted (full : bool) (pl : plane Q) (newp cop : vec3 Q) (c s : Q) (o : result oplane)
@@ -58,6 +61,36 @@ Definition eig_ok (c : mat3 Q) (e : eig3 Q) : bool :=
   Qle_bool (Qabs (vdot QOps (eu0 e) (eu2 e))) (1 # 10000000) &&
   Qle_bool (Qabs (vdot QOps (eu1 e) (eu2 e))) (1 # 10000000).
 
+(* observed finite vector *)
+Definition fl_q (o : fl) : option Q := match o with Fin q => Some q | _ => None end.
+Definition fl_vec (l : list fl) : option (vec3 Q) :=
+  match l with
+  | [a; b; c] => match fl_q a, fl_q b, fl_q c with Some x, Some y, Some z => Some (V3 x y z) | _, _, _ => None end
+  | _ => None
+  end.
+(* M is positive semidefinite up to tolerance t (scale sc): all principal minors >= -tolerance (Sylvester) *)
+Definition psd_tol (m : mat3 Q) (t sc : Q) : bool :=
+  let ge x y := Qle_bool y x in
+  let m2 a b c d := a * d - b * c in
+  ge (a00 m) (- t) && ge (a11 m) (- t) && ge (a22 m) (- t) &&
+  ge (m2 (a00 m) (a01 m) (a10 m) (a11 m)) (- (t * sc)) && ge (m2 (a00 m) (a02 m) (a20 m) (a22 m)) (- (t * sc)) &&
+  ge (m2 (a11 m) (a12 m) (a21 m) (a22 m)) (- (t * sc)) && ge (m3det QOps m) (- (t * sc * sc)).
+(* the observed plane passes through the centroid, has a real unit normal n with cov n = lam n, and lam is the
+   smallest eigenvalue (cov - lam I is positive semidefinite): by C13_min_eigenvector_is_least_squares it is a
+   least-squares plane *)
+Definition fit_tie_ok (ps : list (vec3 Q)) (lam : Q) (o : oplane) : bool :=
+  let c := cov QOps ps in
+  let sc := mat_scale c in
+  let t := (1 # 10000000) * sc in
+  match fl_vec (o_normal o) with
+  | Some n =>
+      o_real o && vec_close_mag (mag_of ps) (centroid QOps ps) (o_ref o) &&
+      close (vdot QOps n n) 1 &&
+      Qle_bool (vmag (vsub QOps (m3apply QOps c n) (vscale QOps lam n))) t &&
+      psd_tol (M3 (a00 c - lam) (a01 c) (a02 c) (a10 c) (a11 c - lam) (a12 c) (a20 c) (a21 c) (a22 c - lam)) t sc
+  | None => false
+  end.
+
 Definition check_case (c : case) : bool :=
   match c with
   | CCtor atol ref n o => agree (mag_of [ref]) (plane_ctor QOps atol ref n) o
@@ -66,6 +99,7 @@ Definition check_case (c : case) : bool :=
   | CFpv atol p1 p2 v o => agree (mag_of [p1]) (from_points_and_vector QOps atol p1 p2 v) o
   | CFit ps e o =>
       eig_ok (cov QOps ps) e && agree (mag_of ps) (fit_from_points QOps (fun _ => e) ps) o
+  | CFitTie ps lam o => match o with Ok op => fit_tie_ok ps lam op | Raise _ => false end
   | CTilted full pl newp cop cs sn o =>
       close (cs * cs + sn * sn) 1 &&
       agree (mag_of [cop]) (tilted_cs QOps pl newp cop cs sn) o &&
